@@ -10,6 +10,12 @@ REQUIRED = ["iint", "Epoch.__init__", "Epoch.set", "Epoch._compute_jde", "Epoch.
 THEOREMS = ["C01_construct", "C01_roundtrip", "C01_refused", "C01_consecutive", "C01_month_names", "C01_anchors"]
 PROOF_TIMEOUT = {"quick": 1500, "thorough": 3000}
 EXHAUSTIVE = True
+MANIFEST = {
+    "category": "proof",
+    "text": "T1: the regenerated binary64 model of Epoch(y,m,d)/get_date is evaluated by the Coq kernel on every civil date -4712..6000 against an independent day count (proved bijective for all years by lia) and lifted to forall-theorems; bit-exact correspondence model vs implementation every run.",
+    "technique": "kernel computation over the full finite domain (vm_compute reflection) + lia on the calendar spec + generated model + bit-exact differential correspondence",
+    "design_ref": "8/C01",
+}
 EXPLANATION = ("Epoch(y,m,d) and get_date of the model regenerated from /repo are evaluated by the Coq kernel on "
                "EVERY civil date -4712..6000 (16 shards, vm_compute) against the independent day count Spec.CalSpec.jdn "
                "and lifted to forall-statements (Range.all_range_spec); jdn itself is proved bijective/consecutive for all years by lia.")
